@@ -301,3 +301,49 @@ pub fn parse_value(s: &str) -> Option<Value> {
         }
     }
 }
+
+
+/// An iterator must behave like the finite sequence it stands for whichever of the `Iterator`
+/// methods a type may override is used: `nth`, `count`, `last`, `size_hint` (bounds must contain the
+/// real remaining length), `skip`, `step_by`, and re-polling after the end.
+pub fn iter_laws<I, T, F>(make: F) -> Result<(), String>
+where
+    I: Iterator<Item = T>,
+    T: PartialEq + std::fmt::Debug,
+    F: Fn() -> I,
+{
+    let all: Vec<T> = make().collect();
+    let n = all.len();
+    let check_hint = |it: &I, remaining: usize, what: &str| -> Result<(), String> {
+        let (lo, hi) = it.size_hint();
+        if lo > remaining || hi.map_or(false, |h| h < remaining) { return Err(format!("size_hint {:?} but {} items remain ({})", (lo, hi), remaining, what)); }
+        Ok(())
+    };
+    check_hint(&make(), n, "fresh")?;
+    if make().count() != n { return Err("count() differs from the number of items yielded".into()); }
+    if make().last() != make().collect::<Vec<_>>().pop() { return Err("last() differs".into()); }
+    for k in 0..=(n + 2).min(9) {
+        let mut it = make();
+        let got = it.nth(k);
+        let want_idx = if k < n { Some(k) } else { None };
+        match (&got, want_idx) {
+            (Some(g), Some(i)) if *g == all[i] => {}
+            (None, None) => {}
+            _ => return Err(format!("nth({}) = {:?}, sequence has {:?}", k, got, want_idx.map(|i| &all[i]))),
+        }
+        let rest_want = if k < n { n - k - 1 } else { 0 };
+        check_hint(&it, rest_want, "after nth")?;
+        let rest: Vec<T> = it.collect();
+        if rest.len() != rest_want || rest.iter().zip(all.iter().skip(k + 1)).any(|(a, b)| a != b) { return Err(format!("items after nth({}) differ from the sequence", k)); }
+        let sk: Vec<T> = make().skip(k).collect();
+        if sk.len() != n.saturating_sub(k) || sk.iter().zip(all.iter().skip(k)).any(|(a, b)| a != b) { return Err(format!("skip({}) differs", k)); }
+        let st: Vec<T> = make().step_by(k + 1).collect();
+        if st.len() != (n + k) / (k + 1) || st.iter().zip(all.iter().step_by(k + 1)).any(|(a, b)| a != b) { return Err(format!("step_by({}) differs", k + 1)); }
+    }
+    // polling after the end keeps returning None for the iterators of this crate (they are plain
+    // cursors over finite data)
+    let mut it = make();
+    for _ in 0..n { it.next(); }
+    if it.next().is_some() || it.next().is_some() { return Err("yields items after the end".into()); }
+    Ok(())
+}
